@@ -15,6 +15,7 @@ def has(conds, text, truth):
 
 
 def run(ctx):
+    ctx.rule("R14.x", "context-manager model: _batch_call_watchers, batch_call_watchers, discard_events, _syncing and edit_constant interpreted abstractly with the body of the `with` supplied at the `yield` (62 cases: entry state x body ends normally / raises x nesting x queues replaced in the body x Parameter copies made in the body): flag, queues, syncing set and constant flags are, after the block, what they were before; the flush runs iff outermost, after the restore, also when the body raised", floor=1)
     ctx.rule("R14.a", "in Parameter.__set__ every value store is control-dependent on the constant/readonly test; no store lies on a path where "
                       "self.readonly holds, nor where the parameter is constant and the instance is initialized; on that arm the only "
                       "non-raising continuation is the identity case", floor=5)
@@ -277,5 +278,7 @@ def run(ctx):
     # model-level rule, run last (see DESIGN §10)
     from checks import setter_model
     setter_model.report(ctx, "C14", "R14.m")
+    from checks import cm_model
+    cm_model.report(ctx, "C14", "R14.x")
     from checks import ctor_model
     ctor_model.report(ctx, "C14", "R14.k")
